@@ -238,7 +238,7 @@ def setup(run):
         if everywhere:
             attach.wrap_everywhere(run, getattr(owner, name), hook, label=lab)
         else:
-            attach.wrap_attr(run, owner, name, hook, label=lab)
+            attach.wrap_attr(run, owner, name, hook, label=lab, overrides=True)
 
     # -- domains --------------------------------------------------------------
     def interior_rows(P, margin=1e-12):
@@ -890,6 +890,10 @@ def wl_origin(run, rng, idx):
     k = klein_by_class(rng, n, shape, rad)
     lam = np.exp(rng.uniform(np.log(0.1), np.log(10), size=tuple(shape) + (1,))) * \
         rng.choice([-1.0, 1.0], size=tuple(shape) + (1,))
+    if idx % 5 == 4:
+        # homogeneous representatives of very small / large scale (seeded change
+        # C02-r2-1: a normalisation that skips vectors of squared norm < 1e-8)
+        lam = lam * 10.0 ** rng.uniform(-6, 6, size=tuple(shape) + (1,))
     X = rh.klein_to_proj(k) * lam
     case = {"dimension": n, "shape": list(shape), "radius_class": rad, "force_oriented": fo,
             "points": X}
@@ -1079,9 +1083,19 @@ def wl_reflections(run, rng, idx):
     from . import c15
     dims = [2, 3, 4, 5] if run.tier == "thorough" else [2, 3, 4]
     n = dims[idx % len(dims)]
-    route = ["normal", "normal-composite", "ideal-points", "normal-composite-2d"][(idx // len(dims)) % 4]
-    cls = ["bulk", "lightlike-kernel", "far", "through-origin"][(idx // (4 * len(dims))) % 4]
-    if route == "normal":
+    route = ["normal", "normal-composite", "ideal-points", "normal-composite-2d",
+             "integer-normal", "full-data-rescaled"][(idx // len(dims)) % 6]
+    cls = ["bulk", "lightlike-kernel", "far", "through-origin"][(idx // (6 * len(dims))) % 4]
+    if route == "integer-normal":
+        # integer-typed normals are stored un-normalised (seeded change C02-r2-2)
+        v = c15.rand_normals(rng, n, [(), (3,)][idx % 2], "integer")
+        arg = v[..., None, :].copy() if v.ndim > 1 else v.copy()
+        cls = "integer"
+    elif route == "full-data-rescaled":
+        v = c15.rand_normals(rng, n, (), "bulk")
+        arg = None
+        cls = "bulk"
+    elif route == "normal":
         v = c15.rand_normals(rng, n, (), cls)
         arg = v.copy()
     elif route == "normal-composite":
@@ -1100,6 +1114,13 @@ def wl_reflections(run, rng, idx):
         P = c15.rand_ideal_points(rng, n, n)
         case["ideal_points"] = P
         W = Geodesic(P.copy()) if n == 2 else Subspace(P.copy())
+    elif route == "full-data-rescaled":
+        # a Hyperplane rebuilt from its full data with the normal row rescaled
+        # (projectively the same wall, no normalisation on this route)
+        W0 = Hyperplane(v.copy())
+        data = np.array(W0.proj_data, dtype=float)
+        data[..., 0, :] *= float(rng.choice([2.5, -0.4, 7.0]))
+        W = Hyperplane(data)
     else:
         W = Hyperplane(arg)
     ideal_all, normal_all = c15.ideal_rows_of(W, hyperbolic_module())
